@@ -24,7 +24,7 @@ var c16Specs = []famSpec{
 func init() {
 	register(&run.Prop{
 		ID: "C16",
-		Rule: "case = path + epsilon + closed flag. simp-zigzag: zig-zags of amplitude around epsilon; simp-chain: near-collinear chains (exactly collinear runs, +-1 nudges) at magnitudes 10..2^29 including closed wrap-around; simp-rand: random paths; simp-float: SimplifyPathD/PathsD; simp-long: noisy closed curves of 200..3000 vertices with planted exact mid-points (cases run one after another in a worker process, so state kept between calls on long paths is exercised). " +
+		Rule: "case = path + epsilon + closed flag. simp-zigzag: zig-zags of amplitude around epsilon; simp-chain: near-collinear chains (exactly collinear runs, +-1 nudges) at magnitudes 10..2^29 including closed wrap-around; simp-rand: random paths; simp-float: SimplifyPathD/PathsD (incl. scaling path and epsilon by 2^-40..2^20); simp-long: noisy closed curves of 200..3000 vertices with planted exact mid-points (cases run one after another in a worker process, so state kept between calls on long paths is exercised). " +
 			"Checked: output is a subsequence; open ends kept; < 4 points returned as is; no retained vertex with exact perpendicular distance (128-bit cross^2 vs eps^2*len^2) clearly below epsilon from the line through its retained neighbours while > 2 remain; " +
 			"epsilon 0 keeps the exact closed area; retained index set invariant under translation and under scaling path and epsilon by 2^k; Paths variants equal per-path calls. " +
 			"Non-trivial = at least one vertex removed and at least 3 kept; distinct by input digest.",
@@ -332,6 +332,26 @@ func c16Float(ctx *run.Ctx, id run.CaseID) {
 			if d+eps*1e-6+R*1e-9 < eps {
 				fail("residual-near-collinear", fmt.Sprintf("retained vertex %d is %.9g from the line through its retained neighbours (epsilon %v)", i, d, eps))
 				break
+			}
+		}
+	}
+	// scaling path and epsilon by the same power of two (exact in float64) must not change which vertices are kept
+	{
+		k := gen.PickOf(r, -40, -24, -10, 7, 20)
+		f := math.Ldexp(1, k)
+		sp := make(clip.PathD, len(orig))
+		for i, v := range orig {
+			sp[i] = clip.PointD{X: v.X * f, Y: v.Y * f}
+		}
+		var so clip.PathD
+		if ctx.Guard(digest, "SimplifyPathD/scaled", in, func() { so = clip.SimplifyPathD(sp, eps*f, closed) }) {
+			ctx.Eval(1)
+			same := len(so) == len(out)
+			for i := 0; same && i < len(out); i++ {
+				same = so[i].X == out[i].X*f && so[i].Y == out[i].Y*f
+			}
+			if !same {
+				fail("scale-invariance", fmt.Sprintf("scaling path and epsilon by 2^%d changes the retained vertices: %v", k, so))
 			}
 		}
 	}
